@@ -23,11 +23,14 @@ Got(pty, res, expected) == "ok" \in DOMAIN res /\ Norm(pty, res.ok) = expected
 \* the parsed type has no field the formatted type lacks
 Narrower(ty, pty) == pty = ty \/ (ty = "dt" /\ pty \in {"ndt", "date", "time"}) \/ (ty = "ndt" /\ pty \in {"date", "time"})
 PertModes == {"upper", "lower", "alt", "asis"}
+\* e.ty: the formatted type; e.pty0: the type the format is meant to be read as (the formatted type, or a narrower one
+\* for a format that prints more than it reads back, e.g. %Z); e.parsed: the results for pty0 and every narrower type
 RoundTrip(e) ==
    LET v == ValueOf(e)  w == StrictItems(e.fw)  r == StrictItems(e.fr) IN
-   /\ WellTyped(e)
-   /\ Unambiguous(w, r, e.ty)                                             \* the driver stays inside the family
+   /\ WellTyped(e) /\ Narrower(e.ty, e.pty0)
+   /\ Unambiguous(w, r, e.pty0)                                           \* the driver stays inside the family
    /\ "ok" \in DOMAIN e.text /\ Renders(w, v, e.text.ok)                  \* C12: the text is the specified rendering
+   /\ \E k \in 1..Len(e.parsed) : e.parsed[k].pty = e.pty0
    /\ \A k \in 1..Len(e.parsed) :                                         \* parse_from_str / parse_and_remainder per target type
          LET q == e.parsed[k] IN
          /\ Narrower(e.ty, q.pty)
@@ -37,9 +40,9 @@ RoundTrip(e) ==
    /\ \A k \in 1..Len(e.perts) :
          LET q == e.perts[k] IN
          /\ q.mode \in PertModes /\ AllWhite(q.ws)
-         /\ Expressible(w, r, v, e.ty) =>
+         /\ Expressible(w, r, v, e.pty0) =>
                /\ q.text = Perturbed(w, v, e.text.ok, q.mode, q.ws)       \* the perturbed text is one the property covers
-               /\ Got(e.ty, q.r, Project(w, r, v, e.ty))
+               /\ Got(e.pty0, q.r, Project(w, r, v, e.pty0))
 Explains(e) ==
   /\ NoPanic(e)
   /\ e.op = "rt" /\ RoundTrip(e)
